@@ -346,6 +346,7 @@ def expected_lines(events, facts, files, programs):
     lm = line_map(files)
     child = facts["child_ids"]
     op_lines = {}
+    seen = set()
     reg = 0
     input_reg_of = {}         # wrapper register -> register of the Input(...) statement behind it
     parties, inputs = {}, {}
@@ -363,7 +364,10 @@ def expected_lines(events, facts, files, programs):
         if op == "inputObj":
             inputs.setdefault(c["name"], []).append(reg)
         k = child.get(reg, child.get(str(reg)))
-        if k is not None and k not in op_lines:
+        if k is not None and k not in seen:
+            # only the first register holding an operation says where it was created (later ones may be aliases:
+            # to_public() of a non-secret, a literal member returned by an accessor, a parameter binding)
+            seen.add(k)
             src = input_reg_of.get(reg, reg)
             if src in lm:
                 op_lines[k] = lm[src]
